@@ -69,7 +69,7 @@ func roundTrip(t *core.T, sig string, src string, pol *cedar.Policy, desc func()
 	in := func() string { return fmt.Sprintf("[%s] %s  =>  %s", src, desc(), text) }
 	var back cedar.Policy
 	var err error
-	if t.Protect("reparse:"+sig, in(), func() { err = back.UnmarshalCedar(text) }) {
+	if t.Protect("reparse:"+sig, in(), func() { err = core.Scribbled(text, back.UnmarshalCedar) }) {
 		return
 	}
 	if err != nil {
@@ -176,7 +176,7 @@ func checkExpr(t *core.T, sig string, e *Expr, alsoJSON bool) {
 			return
 		}
 		var pj cedar.Policy
-		if t.Protect("unmarshal-json:"+sig, string(js), func() { err = pj.UnmarshalJSON(js) }) {
+		if t.Protect("unmarshal-json:"+sig, string(js), func() { err = core.Scribbled(js, pj.UnmarshalJSON) }) {
 			return
 		}
 		if err == nil {
